@@ -802,6 +802,9 @@ def run(pid, tier, replay=None):
     else:
         return machinery_failure(pid, "unknown property for the ledger family")
 
+    if pid == "C03":
+        from checks import longchain
+        longchain.stage(chk, quick, rng, pid)
     if pid in ("C01", "C02", "C05"):
         # ---- the verdict of full validation is a function of (block, chain, clock) -- also while the miner's thread assembles a candidate
         #      from the same chain state and a pending transaction (Interfere.tla; preemption-point exploration on real threads)
